@@ -8,30 +8,127 @@ open Proc.Tok
 
 /-- Appending bytes that do not start with a UTF-8 continuation byte never changes how the first
 rune of a non-empty string decodes (an incomplete sequence stays incomplete). -/
+theorem notCont_nat {d : UInt8} (h : isCont d = false) : d.toNat < 128 ∨ 191 < d.toNat := by
+  simp [isCont, UInt8.le_iff_toNat_le] at h
+  by_cases h1 : 128 ≤ d.toNat
+  · exact Or.inr (h h1)
+  · exact Or.inl (by omega)
+
+theorem lo3_ge (b : UInt8) : 0x80 ≤ (lo3 b).toNat := by unfold lo3; split <;> decide
+theorem hi3_le (b : UInt8) : (hi3 b).toNat ≤ 0xBF := by unfold hi3; split <;> decide
+theorem lo4_ge (b : UInt8) : 0x80 ≤ (lo4 b).toNat := by unfold lo4; split <;> decide
+theorem hi4_le (b : UInt8) : (hi4 b).toNat ≤ 0xBF := by unfold hi4; split <;> decide
+
 theorem decodeRune_append (b0 : UInt8) (u rest : Bytes)
     (h : ∀ d r, rest = d :: r → isCont d = false) :
     decodeRune (b0 :: u ++ rest) = decodeRune (b0 :: u) := by
+  have g1 := lo3_ge b0; have g2 := hi3_le b0; have g3 := lo4_ge b0; have g4 := hi4_le b0
   rcases u with _ | ⟨b1, _ | ⟨b2, _ | ⟨b3, t⟩⟩⟩
   · rcases rest with _ | ⟨d, _ | ⟨e, _ | ⟨f, r⟩⟩⟩
     · rfl
     all_goals
-      have hd := h _ _ rfl
+      have hd := notCont_nat (h _ _ rfl)
+      clear h
       simp only [List.cons_append, List.nil_append, decodeRune]
       (repeat' split) <;>
         simp_all [isCont, UInt8.le_iff_toNat_le, UInt8.lt_iff_toNat_lt, ← UInt8.toNat_inj] <;> omega
   · rcases rest with _ | ⟨d, _ | ⟨e, r⟩⟩
     · rfl
     all_goals
-      have hd := h _ _ rfl
+      have hd := notCont_nat (h _ _ rfl)
+      clear h
       simp only [List.cons_append, List.nil_append, decodeRune]
       (repeat' split) <;>
         simp_all [isCont, UInt8.le_iff_toNat_le, UInt8.lt_iff_toNat_lt, ← UInt8.toNat_inj] <;> omega
   · rcases rest with _ | ⟨d, r⟩
     · rfl
-    · have hd := h _ _ rfl
+    · have hd := notCont_nat (h _ _ rfl)
+      clear h
       simp only [List.cons_append, List.nil_append, decodeRune]
       (repeat' split) <;>
         simp_all [isCont, UInt8.le_iff_toNat_le, UInt8.lt_iff_toNat_lt, ← UInt8.toNat_inj] <;> omega
   · simp only [List.cons_append, decodeRune]
+
+theorem decodeRune_cont (d : UInt8) (r : Bytes) (h : isCont d = true) : decodeRune (d :: r) = (runeError, 1) := by
+  simp [isCont, UInt8.le_iff_toNat_le] at h
+  have h1 : ¬ d < 0x80 := by simp [UInt8.lt_iff_toNat_lt]; omega
+  have h2 : (decide (0xC2 ≤ d) && decide (d ≤ 0xDF)) = false := by
+    simp [UInt8.le_iff_toNat_le]; intro; omega
+  have h3 : (decide (0xE0 ≤ d) && decide (d ≤ 0xEF)) = false := by
+    simp [UInt8.le_iff_toNat_le]; intro; omega
+  have h4 : (decide (0xF0 ≤ d) && decide (d ≤ 0xF4)) = false := by
+    simp [UInt8.le_iff_toNat_le]; intro; omega
+  simp [decodeRune, h1, h2, h3, h4]
+
+/-- the stop test of `bareWord`: `unicode.IsSpace(r) || isOp(r)` -/
+def stopRune (cx : Ctx) (r : Nat) : Bool := isSpaceRune cx r || isOpR r
+
+/-- what may follow a bare word: nothing, or a rune on which `bareWord` stops -/
+def Delim (cx : Ctx) (rest : Bytes) : Prop := rest = [] ∨ stopRune cx (decodeRune rest).1 = true
+
+/-- a delimiter never starts with a UTF-8 continuation byte, because U+FFFD is not white space -/
+theorem delim_notCont (cx : Ctx) (hFFFD : cx.isSpaceHi runeError = false) {rest : Bytes} (hd : Delim cx rest) :
+    ∀ d r, rest = d :: r → isCont d = false := by
+  intro d r hr
+  cases hc : isCont d with
+  | false => rfl
+  | true =>
+    rcases hd with hd | hd
+    · rw [hr] at hd; simp at hd
+    · rw [hr, decodeRune_cont d r hc] at hd
+      simp [stopRune, isSpaceRune, runeError, isOpR] at hd
+      simp [runeError] at hFFFD
+      rw [hFFFD] at hd; simp at hd
+
+theorem bareSplit_delim (cx : Ctx) (rest : Bytes) (hd : Delim cx rest)
+    (hc : ∀ d r, rest = d :: r → isCont d = false) :
+    ∀ (f : Nat) (u : Bytes), u.length ≤ f → allRunes (fun r => !stopRune cx r) f u = true →
+      ∀ g, f ≤ g → bareSplit cx g (u ++ rest) = (u, rest) := by
+  have hend : ∀ g, bareSplit cx g rest = ([], rest) := by
+    intro g
+    match g with
+    | 0 => rfl
+    | g + 1 =>
+      match rest, hd with
+      | [], _ => rfl
+      | d :: r, hd =>
+        rcases hd with hd | hd
+        · simp at hd
+        · simp only [bareSplit]
+          simp only [stopRune] at hd
+          simp [hd]
+  intro f
+  induction f with
+  | zero =>
+    intro u hu _ g _
+    have : u = [] := List.length_eq_zero_iff.mp (by omega)
+    subst this; simpa using hend g
+  | succ f ih =>
+    intro u hu ha g hg
+    match u with
+    | [] => simpa using hend g
+    | b0 :: u' =>
+      match g, hg with
+      | g + 1, hg =>
+        have hsz := decodeRune_size b0 u'
+        have hdec : decodeRune (b0 :: (u' ++ rest)) = decodeRune (b0 :: u') := by
+          simpa using decodeRune_append b0 u' rest hc
+        simp only [allRunes, Bool.and_eq_true, Bool.not_eq_true'] at ha
+        have hns : (isSpaceRune cx (decodeRune (b0 :: u')).1 || isOpR (decodeRune (b0 :: u')).1) = false := by
+          simpa [stopRune] using ha.1
+        simp only [List.cons_append, bareSplit, hdec, hns]
+        have hdrop : (b0 :: (u' ++ rest)).drop (decodeRune (b0 :: u')).2 =
+            (b0 :: u').drop (decodeRune (b0 :: u')).2 ++ rest := by
+          have : b0 :: (u' ++ rest) = (b0 :: u') ++ rest := rfl
+          rw [this, List.drop_append_of_le_length hsz.2]
+        have htake : (b0 :: (u' ++ rest)).take (decodeRune (b0 :: u')).2 =
+            (b0 :: u').take (decodeRune (b0 :: u')).2 := by
+          have : b0 :: (u' ++ rest) = (b0 :: u') ++ rest := rfl
+          rw [this, List.take_append_of_le_length hsz.2]
+        rw [hdrop, htake]
+        have hl : ((b0 :: u').drop (decodeRune (b0 :: u')).2).length ≤ f := by
+          rw [List.length_drop]; simp at hu ⊢; omega
+        rw [ih _ hl ha.2 g (by omega)]
+        simp
 
 end C07
